@@ -23,6 +23,8 @@ SIGNED = ('modularity_louvain_und_sign', 'modularity_finetune_und_sign', 'modula
 TAKES_START = FINETUNE + ('community_louvain',)
 DET_GAIN = LOUVAIN + FINETUNE + ('community_louvain',)
 ZERO = ('modularity_und', 'modularity_dir', 'modularity_und_sign')
+CROSS = {'und': ('modularity_louvain_und', 'modularity_finetune_und', 'community_louvain'), 'dir': ('community_louvain', 'modularity_finetune_dir'),
+         'sign': ('modularity_louvain_und_sign', 'modularity_finetune_und_sign')}
 QTOL = 1e-8
 MONO_TOL = 1e-9
 
@@ -197,6 +199,15 @@ def execute(case, mode):
     outcome = 'ok'
     n = len(W)
     try:
+        if case.get('cross'):
+            pc = dict(p)
+            pc.pop('hierarchy', None)
+            if case['cross'] == 'community_louvain':
+                pc['B'] = {'sign': 'negative_asym'}.get(case['meta'].get('kind'), 'modularity')
+            co = call(case['cross'], Win, pc, rng, None)
+            if M.valid_partition(co[0], n) is None:
+                start = np.array(co[0]).copy()
+                sin = start.copy()
         out = call(routine, Win, p, rng, sin)
         if case.get('feedback') and routine in TAKES_START and not p.get('hierarchy'):
             fb_start = np.array(out[0]).copy()
@@ -281,8 +292,12 @@ def execute(case, mode):
         pr['rejected:' + str(exc)[:40]] = 1
     if case.get('feedback') and out2 is not None:
         pr['feedback_runs'] = 1
+    if case.get('cross') and start is not None:
+        pr['cross_start_runs'] = 1
     if routine in ZERO:
         pr['zero_draw'] = 1
+    if case['meta'].get('onesign'):
+        pr['signed_routine_on_nonnegative_input'] = 1
     res['info'] = {'maxlevel': max(mon.maxlevel, levels_returned), 'first_neg': mon.first_neg}
     res['first_neg'] = mon.first_neg
     return res
@@ -336,10 +351,12 @@ def gen_case(sub, routines, scn_id, nmax=12):
     weighted = rnd.choice((None, 'int', 'float'))
     if p.get('B') == 'potts':
         weighted = None
+    # the signed routines document non-negative input as legal ("equivalent to modularity_louvain_und"): one run in seven
+    onesign = kind == 'sign' and rnd.random() < 0.15
     for _ in range(30):
-        W, lab = planted(rnd, n, k, kind, weighted, rnd.choice((0.6, 0.8, 1.0)), rnd.choice((0.05, 0.15, 0.3, 0.5)))
-        # domain of C02/C07: positive total weight (for signed networks: sum(W) > 0 and both signs present)
-        ok = W.sum() > 1e-9 and (kind != 'sign' or ((W > 0).any() and (W < 0).any()))
+        W, lab = planted(rnd, n, k, 'und' if onesign else kind, weighted, rnd.choice((0.6, 0.8, 1.0)), rnd.choice((0.05, 0.15, 0.3, 0.5)))
+        # domain of C02/C07: positive total weight (for signed networks: sum(W) > 0)
+        ok = W.sum() > 1e-9 and (kind != 'sign' or onesign or ((W > 0).any() and (W < 0).any()))
         if kind != 'sign' and ok:
             # every node needs some weight, otherwise k_i = 0 nodes are a degenerate corner; keep a few of those too
             ok = True
@@ -354,8 +371,9 @@ def gen_case(sub, routines, scn_id, nmax=12):
             W[x, x] = float(rnd.randint(1, 3)) if weighted != 'float' else round(rnd.uniform(0.1, 1.0), 4)
     start = None
     feedback = False
+    cross = None
     if routine in TAKES_START + ('modularity_probtune_und_sign',) + ZERO:
-        sk = rnd.choice(('none', 'random', 'planted', 'perturbed', 'noncontig', 'feedback'))
+        sk = rnd.choice(('none', 'random', 'planted', 'perturbed', 'noncontig', 'feedback', 'cross', 'cross'))
         if routine in ZERO:
             sk = rnd.choice(('none', 'random', 'planted', 'noncontig')) if routine != 'modularity_und_sign' else rnd.choice(('random', 'planted', 'noncontig'))
         if sk == 'random':
@@ -370,8 +388,13 @@ def gen_case(sub, routines, scn_id, nmax=12):
             start = lab * rnd.choice((3, 10)) + rnd.choice((0, 5, -2))
         elif sk == 'feedback':
             feedback = True
+        elif sk == 'cross' and routine not in ZERO:
+            # start from ANOTHER optimiser's output for the same network and gamma: a local optimum of the true
+            # objective, where a single wrong move lowers Q
+            cross = rnd.choice(CROSS[kind])
     case = {'scn': scn_id, 'routine': routine, 'W': enc(W), 'params': p, 'seed': sub, 'policy': pick_policy(rnd), 'budget': 40000,
-            'trace': None, 'start': enc(start) if start is not None else None, 'feedback': feedback, 'meta': {'n': n, 'kind': kind, 'k': k}}
+            'trace': None, 'start': enc(start) if start is not None else None, 'feedback': feedback, 'cross': cross,
+            'meta': {'n': n, 'kind': kind, 'k': k, 'onesign': onesign}}
     return case
 
 
@@ -388,6 +411,8 @@ def shrink_candidates(case):
     p = case['params']
     start = dec(case['start']) if case.get('start') is not None else None
     kind = case['meta'].get('kind')
+    if case['meta'].get('onesign'):
+        kind = 'und'
 
     def mk(**kw):
         c = dict(case)
@@ -397,6 +422,8 @@ def shrink_candidates(case):
         yield mk(policy={'name': 'fair'})
     if case.get('feedback'):
         yield mk(feedback=False, trace=None)
+    if case.get('cross'):
+        yield mk(cross=None, trace=None)
     if start is not None:
         yield mk(start=None, trace=None)
     if n > 4:
